@@ -666,7 +666,7 @@ func (sc *specCtx) goExpr(e ast.Expr, subs map[string]SpecExpr) Value {
 		case token.QUO:
 			return scalar(pickT(l, r), App("div", SInt, l.term(), r.term()))
 		case token.REM:
-			return scalar(pickT(l, r), sc.u.modTerm(nil, l.term(), r.term()))
+			return scalar(pickT(l, r), sc.u.modTerm(sc.st, l.term(), r.term()))
 		case token.AND, token.OR, token.XOR, token.SHL, token.SHR:
 			// same uninterpreted symbols / constant rules as the program semantics
 			saved := u.checks
